@@ -37,7 +37,7 @@ Qed.
 (* well-formedness of the interfaces that should be present *)
 Definition WfI (sp : spec) : Prop :=
   forall i a b, lookup i (pI sp) = Some (a, b) ->
-    a <> b /\ In a (pS sp) /\ In b (pS sp) /\ fst i <= fst a /\ fst i <= fst b /\
+    In a (pS sp) /\ In b (pS sp) /\ fst i <= fst a /\ fst i <= fst b /\
     (forall j c d, lookup j (pI sp) = Some (c, d) -> unord (a, b) (c, d) -> i = j).
 
 (* the two boundary-grid dictionaries *)
@@ -166,7 +166,7 @@ Qed.
 (* what one pass of the loop in replace writes for an interface of the old grid *)
 Lemma rename_loop_spec s o n : forall L m,
   NoDup L ->
-  (forall i, In i L -> exists a b, lookup i m = Some (a, b) /\ a <> b /\ In a s /\ In b s /\
+  (forall i, In i L -> exists a b, lookup i m = Some (a, b) /\ In a s /\ In b s /\
                                    touches o (a, b) = true) ->
   exists m', rename_loop s o n L m = (m', None) /\ map fst m' = map fst m /\
     (forall j, ~ In j L -> lookup j m' = lookup j m) /\
@@ -176,39 +176,43 @@ Proof.
   induction L as [|i r IH]; intros m Hn Hp.
   - exists m. cbn. repeat split; auto. intros j [].
   - inversion Hn as [|? ? Hir Hnr]; subst.
-    destruct (Hp i (or_introl eq_refl)) as (a & b & Hl & Hab & Ha & Hb & Ht).
+    destruct (Hp i (or_introl eq_refl)) as (a & b & Hl & Ha & Hb & Ht).
     cbn [rename_loop]. rewrite Hl.
-    destruct (sort_tuple_ok s a b Ha Hb Hab) as (hi & lo & Hst & Hlt & Hor). rewrite Hst.
-    assert (Hhl : hi <> lo).
-    { intros ->. apply (glt_irrefl lo); auto. }
+    destruct (sort_tuple_gen s a b Ha Hb) as (hi & lo & Hst & _ & Hor). rewrite Hst.
+    cbv zeta.
     apply touches_iff in Ht. cbn [fst snd] in Ht.
-    set (v := if geqb hi o then (n, lo) else (hi, n)).
+    set (v := (ren o n hi, ren o n lo)).
     assert (Hv : unord v (ren o n a, ren o n b)).
-    { unfold v, ren, unord. cbn [fst snd].
-      destruct Hor as [E|E]; inversion E; subst; gcase a o; gcase b o; subst; try congruence;
-        cbn [fst snd]; try (left; split; reflexivity); try (right; split; reflexivity);
-        destruct Ht; congruence. }
-    assert (Hstep : exists m1, (if geqb hi o then rename_loop s o n r (dset i (n, lo) m)
-                     else if geqb lo o then rename_loop s o n r (dset i (hi, n) m)
-                     else rename_loop s o n r m) = rename_loop s o n r m1 /\
-                     m1 = dset i v m).
-    { unfold v. gcase hi o; [eexists; split; reflexivity|].
-      gcase lo o; [eexists; split; reflexivity|].
-      exfalso. destruct Hor as [E'|E']; inversion E'; subst; destruct Ht; congruence. }
-    destruct Hstep as (m1 & -> & ->).
+    { unfold v, unord. cbn [fst snd].
+      destruct Hor as [E|E]; inversion E; subst; [left | right]; auto. }
     assert (Hik : In i (map fst m)).
     { apply lookup_keys. congruence. }
-    destruct (IH (dset i v m) Hnr) as (m' & Hr & Hk & Hout & Hin).
+    set (m2 := (if geqb lo o
+                then dset i (if geqb hi o then n else hi, n)
+                          (if geqb hi o then dset i (n, lo) m else m)
+                else if geqb hi o then dset i (n, lo) m else m)).
+    assert (Hm2 : (forall j, lookup j m2 = if geqb i j then Some v else lookup j m) /\
+                  map fst m2 = map fst m).
+    { unfold m2, v, ren. split.
+      - intros j. gcase lo o; gcase hi o; rewrite ?lookup_dset; gcase i j; subst; auto.
+        exfalso. destruct Hor as [E'|E']; inversion E'; subst; destruct Ht; congruence.
+      - gcase lo o; gcase hi o; auto.
+        + rewrite dset_keys_present; [apply dset_keys_present; auto|].
+          rewrite dset_keys_present; auto.
+        + apply dset_keys_present; auto.
+        + apply dset_keys_present; auto. }
+    destruct Hm2 as [Hm2 Hk2].
+    destruct (IH m2 Hnr) as (m' & Hr & Hk & Hout & Hin).
     + intros i' Hi'. destruct (Hp i' (or_intror Hi')) as (a' & b' & Hl' & Hrest).
-      exists a', b'. split; auto. rewrite lookup_dset. gcase i i'; [subst; contradiction | auto].
-    + exists m'. split; auto. split; [rewrite Hk; apply dset_keys_present; auto|]. split.
+      exists a', b'. split; auto. rewrite Hm2. gcase i i'; [subst; contradiction | auto].
+    + exists m'. split; auto. split; [congruence|]. split.
       * intros j Hj. rewrite Hout by (intros ?; apply Hj; right; auto).
-        rewrite lookup_dset. gcase i j; [subst; exfalso; apply Hj; left; auto | auto].
+        rewrite Hm2. gcase i j; [subst; exfalso; apply Hj; left; auto | auto].
       * intros j [<-|Hj].
         -- exists a, b, v. split; auto. split; auto. rewrite Hout by auto.
-           rewrite lookup_dset, geqb_refl. reflexivity.
+           rewrite Hm2, geqb_refl. reflexivity.
         -- destruct (Hin j Hj) as (a' & b' & q & Hl' & Hq & Hu).
-           exists a', b', q. split; auto. rewrite lookup_dset in Hl'.
+           exists a', b', q. split; auto. rewrite Hm2 in Hl'.
            gcase i j; [subst; contradiction | auto].
 Qed.
 
